@@ -120,7 +120,14 @@ def e10(ctx):
         return dotted(it)
     seqs = {OLD: set(), NEW: set()}
     marked = []
-    for c in walk_no_nested(pe.node):
+    # local closures of print_StringEdit belong to it (a flush helper defined inside the method)
+    closures = {d.name: d for d in ast.walk(pe.node) if isinstance(d, ast.FunctionDef) and d is not pe.node}
+
+    def walk_pe():
+        yield from walk_no_nested(pe.node)
+        for d in closures.values():
+            yield from walk_no_nested(d)
+    for c in walk_pe():
         if isinstance(c, ast.Call) and self_attr(c.func) == "write_char":
             rem, ins = kwarg(c, "removed"), kwarg(c, "inserted")
             side = OLD if (isinstance(rem, ast.Constant) and rem.value is True) else \
@@ -184,6 +191,11 @@ def e10(ctx):
                 main_loop = x
     if wq and main_loop is not None and rem_seq and add_seq:
         after = {src for c, side, pol, src in marked if c.lineno > main_loop.end_lineno and c.lineno < wq[0].lineno}
+        for call in walk_no_nested(pe.node):
+            if isinstance(call, ast.Call) and isinstance(call.func, ast.Name) and call.func.id in closures \
+                    and main_loop.end_lineno < call.lineno < wq[0].lineno:
+                d = closures[call.func.id]
+                after |= {src for c, side, pol, src in marked if d.lineno <= c.lineno <= d.end_lineno}
         if {rem_seq, add_seq} <= after:
             ctx.proved("E10", F, W, wq[0], "pending runs flushed", "both pending runs are written after the loop and before the closing quote")
         else:
